@@ -203,6 +203,8 @@ def report(prop, tier, seed, results, extra_res, t0):
             ob = r['obligations'][0]
             samples.append({'function': r['function'], 'obligation': ob['name'], 'clause': ob['info'],
                             'status': ob['status'], 'backend': ob['backend'], 'seconds': ob['seconds']})
+    for u in extra_res.get('undecided', []):
+        undecided.append(('extra', u))
     for line in known_lines:
         print(line)
     for er in extra_res.get('known', []):
